@@ -96,9 +96,10 @@ def run(rep, prog, tier):
     H = prog.cls('pgpy.types', 'Header')
     px = _Proxy(rep, 'C08.i')
     B = C09.Bench(px, prog)
-    C09.new_format(px, prog, H, B)
+    C09.newformat(px, prog, B)
     C09.widths(px, prog, H, B)
-    C09.tag_octet(px, prog, B)
+    C09.tagoctet(px, prog, B)
+    C09.partial(px, prog, B)
     C09.subpacket_header(px, prog, B)
 
 
